@@ -159,9 +159,19 @@ def run(m: Model, r: Report, tier: str) -> None:
 
     # ---------------------------------------------------------------- R5
     ra = m.require_function(f"{DOIP}.DoIPConnection._read_routing_activation_response")
-    tests = [n for n in walk_no_nested(ra.node) if isinstance(n, ast.If) and "RoutingActivationResponseCode" in ast.unparse(n.test)]
-    r.check(len(tests) == 1 and m.eqm(ra, tests[0].test, "payload.RoutingActivationResponseCode != RoutingActivationResponseCodes.Success")
-            and isinstance(tests[0].body[0], ast.Raise) and "DoIPRoutingActivationDeniedError" in ast.unparse(tests[0].body[0]),
+    # the DoIPRoutingActivationDeniedError is raised exactly when the response code is not Success (path condition in normal form; any branch order)
+    from sa.util import path_condition as _pcra, norm_conds as _ncra, subst_locals as _slra
+    ra_node = _slra(ra.node, ra.node)
+    denies = [n for n in ast.walk(ra_node) if isinstance(n, ast.Raise) and n.exc is not None and "DoIPRoutingActivationDeniedError" in ast.unparse(n.exc)]
+    ok_ra = None
+    if len(denies) == 1:
+        lits_ra = _ncra(_pcra(ra_node, denies[0]))
+        code_lits = [(t_, v_) for t_, v_ in lits_ra if "RoutingActivationResponseCodes.Success" in t_ and "RoutingActivationResponseCode" in t_.replace("RoutingActivationResponseCodes.Success", "")]
+        if code_lits:
+            ok_ra = all("==" in t_ and v_ is False for t_, v_ in code_lits)
+    elif not denies:
+        ok_ra = False
+    r.check3(ok_ra,
             "R5", ra.qualname, "the connection must be refused for every response code other than Success", loc=ra.loc)
 
     # ---------------------------------------------------------------- R6 / R7
